@@ -124,7 +124,7 @@ Definition sctp_checksum : compute_fn := fun fs pos =>
 
 (* protocol/__init__.py ComputeFunctions *)
 Definition SCTP_ALL_BUT_CHECKSUM : list fid :=
-  map (fun i => mkfid P_SCTP (Z.of_nat i)) ([0; 1; 2] ++ seq 4 40)%nat.
+  map (fun i => mkfid P_SCTP (Z.of_nat i)) ([0; 1; 2] ++ seq 4 33)%nat.
 
 Definition compute_functions : compute_table := fun f =>
   if fid_eqb f IPV4_TOTAL_LENGTH then Some (ipv4_total_length, [])
